@@ -410,7 +410,12 @@ class FIXNewOrderSingle:
             self.leaves_qty = 0
 
         if new_status is not None:
-            self.status = new_status
+            self.status = FOrdStatus(new_status)
+            if self.orig_clord_id:
+                # The request was refused: the order stays live under its previous
+                # ClOrdID, allow subsequent cancel / replace requests
+                self.clord_id = self.orig_clord_id
+                self.orig_clord_id = None
             return True
         else:
             return False
